@@ -66,6 +66,14 @@ REWRITES = [
  ("balanced accuracy by hand (mean recall over present classes) instead of sklearn", [(MET, lambda s: s.replace(
      "    y_pred = y_score.argmax(axis=1)\n    return metrics.balanced_accuracy_score(\n        y_true=y_true_array,\n        y_pred=y_pred,\n    )",
      "    y_pred = y_score.argmax(axis=1)\n    recalls = [\n        float(np.mean(y_pred[y_true_array == c] == c))\n        for c in np.unique(y_true_array)\n    ]\n    return float(np.mean(recalls))"))]),
+ ("clip evaluations returned sorted by clip start time (order of the result is not part of the statement)", [(CC, lambda s: s.replace(
+     "    return evaluated_examples, true_classes, np.array(predicted_classes_scores)",
+     "    order = sorted(range(len(evaluated_examples)), key=lambda i: evaluated_examples[i].annotations.clip.start_time)\n    evaluated_examples = [evaluated_examples[i] for i in order]\n    return evaluated_examples, true_classes, np.array(predicted_classes_scores)"))]),
+ ("RUN_METRICS rows reordered in detection (order of metrics within a list is not pinned)", [(DET, lambda s: s.replace(
+     "    (terms.mean_average_precision, metrics.mean_average_precision),\n    (terms.balanced_accuracy, metrics.balanced_accuracy),\n",
+     "    (terms.balanced_accuracy, metrics.balanced_accuracy),\n    (terms.mean_average_precision, metrics.mean_average_precision),\n"))]),
+ ("AOEF: metrics read back in sorted key order", [(AEV, lambda s: s.replace(
+     "                for name, value in (obj.metrics or {}).items()", "                for name, value in sorted((obj.metrics or {}).items())"))]),
 ]
 
 MUTANTS = [
@@ -105,6 +113,15 @@ MUTANTS = [
      "            value=metric(\n                true_classes,\n                predicted_classes_scores\n                if not true_classes.any(axis=1).all()\n                else np.round(predicted_classes_scores, 1),\n            ),"))]),
  ("jaccard default threshold 0.5 -> 0.51", [(MET, lambda s: s.replace("    threshold: float = 0.5,", "    threshold: float = 0.51,"))]),
  ("top-3 hits: float32 mean (np.mean(hits, dtype=np.float32))", [(MET, lambda s: s.replace("    return float(np.mean(hits))", "    return float(np.mean(hits, dtype=np.float32))"))]),
+ ("detection: items of clips without annotated sound events left out of the run-level metrics", [(DET, lambda s: s.replace(
+     "        true_classes.extend(true_class)\n        predicted_classes_scores.extend(predicted_classes)\n        evaluated_clips.append(evaluated_clip)",
+     "        evaluated_clips.append(evaluated_clip)\n        if not annotations.sound_events:\n            continue\n        true_classes.extend(true_class)\n        predicted_classes_scores.extend(predicted_classes)"))]),
+ ("clip_classification: true class from the last tag of the vocabulary instead of the first", [(CC, lambda s: s.replace(
+     "        tags=clip_annotations.tags,\n        encoder=encoder,\n    )\n    predicted_class_scores", "        tags=list(reversed(clip_annotations.tags)),\n        encoder=encoder,\n    )\n    predicted_class_scores"))]),
+ ("top-3: k = min(3, number of tags)", [(MET, lambda s: s.replace("[:, ::-1][:, :3]", "[:, ::-1][:, : min(3, num_classes)]"))]),
+ ("SEC: run-level metrics averaged over two halves instead of computed over all sound events", [(SEC, lambda s: s.replace(
+     "            value=metric(\n                true_classes,\n                predicted_classes_scores,\n            ),\n        )\n        for term, metric in RUN_METRICS",
+     "            value=metric(\n                true_classes,\n                predicted_classes_scores,\n            ) if len(true_classes) < 3 else float(np.mean([metric(true_classes[:2], predicted_classes_scores[:2]), metric(true_classes[2:], predicted_classes_scores[2:])])),\n        )\n        for term, metric in RUN_METRICS"))]),
 ]
 
 
@@ -115,8 +132,14 @@ def sh(cmd):
 def main():
     kind = sys.argv[1]
     only = sys.argv[2] if len(sys.argv) > 2 else None
-    for name, edits in (REWRITES if kind == "rewrites" else MUTANTS):
-        if only and only not in name:
+    todo = (REWRITES if kind == "rewrites" else MUTANTS)
+    if only and only.startswith("from="):
+        todo = todo[int(only[5:]):]
+        only_ = None
+    else:
+        only_ = only
+    for name, edits in todo:
+        if only_ and only_ not in name:
             continue
         saved = {}
         try:
